@@ -18,7 +18,7 @@ Hypothesis lt_incomp : forall x y z,
 Notation is_set := (is_set lt).
 Notation cut_ok := (cut_ok lt).
 
-Lemma lt_asym x y : lt x y = true -> lt y x = false.
+Lemma cmp_asym x y : lt x y = true -> lt y x = false.
 Proof.
   intros H. destruct (lt y x) eqn:E; [|reflexivity].
   pose proof (lt_trans _ _ _ H E) as C. rewrite lt_irrefl in C. discriminate.
@@ -264,7 +264,7 @@ Proof.
   repeat split; cbn [below above key_cut].
   - intros a b H1 H2. eapply lt_trans; eassumption.
   - intros a b H1 H2. eapply lt_trans; eassumption.
-  - intros a. apply lt_asym.
+  - intros a. apply cmp_asym.
 Qed.
 
 Lemma key_split_le1 k l l1 lm l3 : is_set l -> split3 (key_cut lt k) l l1 lm l3 -> length lm <= 1.
